@@ -62,6 +62,21 @@ def run(ctx):
                 for st1, st2 in (('obj', 'obj'), ('obj', 'raw'), ('raw', 'obj')):
                     cases.append({'op': 'eq', 'lang': lang, 'f': cx(x), 'g': cx(y), 'style': st1, 'style2': st2})
                     cases.append({'op': 'eq', 'lang': lang, 'f': cx(y), 'g': cx(x), 'style': st1, 'style2': st2})
+    # deep formulas: a tower of unary operators over near-miss n-ary groupings (beyond any small-depth fast path)
+    def tower(f, h, lang):
+        ops = ['not'] if lang in ('PL', 'CTL') else ['not', 'X', 'G', 'F']
+        for i in range(h):
+            f = (ops[i % len(ops)], f)
+        return f
+    a, b, c, d = ('ap', 'p'), ('ap', 'q_1'), ('ap', 'r'), ('true',)
+    for lang in ('PL', 'LTL', 'CTL', 'CTLS'):
+        for op in ('and', 'or'):
+            pairs = [((op, (op, a, b), c, d), (op, (op, a, b, c), d)), ((op, a, (op, b, c)), (op, (op, a, b), c)), ((op, a, b, c), (op, a, (op, b, c)))]
+            for h in (60, 150, 230):      # the JSON reader of TLC accepts 255 nesting levels
+                for x, y in pairs:
+                    cases.append({'op': 'eq', 'lang': lang, 'f': tower(x, h, lang), 'g': tower(y, h, lang), 'style': 'obj', 'style2': 'obj'})
+                    cases.append({'op': 'eq', 'lang': lang, 'f': tower(x, h, lang), 'g': tower(x, h, lang), 'style': 'obj', 'style2': 'raw'})
+                cases.append({'op': 'clone', 'lang': lang, 'f': tower(pairs[0][0], h, lang), 'style': 'obj'})
     keep = synfam.run_events(ctx, cases)
     for c, ev in keep:
         if ev['op'] == 'eq' and ev['f'] != ev['g']:
